@@ -522,6 +522,62 @@ pub fn spec_tokens(a: &Ast, fl: Fl, cx: &mut Ctx, out: &mut String) -> bool {
 
 const HAY_ALPHA: &[&str] = &["a", "b", "c", "a", "b", "é", "K", "k", "s", "S", "\u{17F}", "\u{212A}", "ß", "\u{1F600}", "\n", "x", "_", "1", "A", "\u{2028}", "É", "ẞ"];
 
+/// Deterministic family: every body in every context under several flag sets (run by shard 0).
+fn spec_family() -> Vec<(Ast, &'static str)> {
+    let ch = |c: char| Ast::Char(c as u32);
+    let strcls = |strs: &[&str], chars: &[char]| Ast::Class {
+        inv: false,
+        items: strs.iter().map(|s| Item::Str(s.chars().map(|c| c as u32).collect())).chain(chars.iter().map(|c| Item::Ch(*c as u32))).collect(),
+    };
+    let grp = |a: Ast| Ast::Group { name: None, body: Box::new(a) };
+    let ngrp = |n: &str, a: Ast| Ast::Group { name: Some(n.to_string()), body: Box::new(a) };
+    let q = |a: Ast, min: u32, max: Option<u32>, greedy: bool| Ast::Quant { body: Box::new(a), min, max, greedy };
+    let bodies: Vec<(Ast, bool)> = vec![
+        // (body, needs v mode)
+        (strcls(&["ab"], &[]), true),
+        (strcls(&["ab", "abc", "a"], &['x']), true),
+        (strcls(&["", "ab"], &['b']), true),
+        (strcls(&["ba", "ab"], &[]), true),
+        (Ast::Seq(vec![ch('a'), ch('b')]), false),
+        (Ast::Seq(vec![grp(ch('a')), Ast::BackRef(1)]), false),
+        (Ast::Seq(vec![Ast::BackRef(1), grp(ch('a'))]), false),
+        (Ast::Seq(vec![Ast::NamedRef("n".into()), Ast::NonCap(Box::new(Ast::Alt(vec![ngrp("n", ch('a')), ngrp("n", ch('b'))])))]), false),
+        (Ast::Seq(vec![Ast::NonCap(Box::new(Ast::Alt(vec![ngrp("n", ch('a')), ngrp("n", ch('b'))]))), Ast::NamedRef("n".into())]), false),
+        (q(grp(q(ch('a'), 0, Some(1), true)), 2, Some(2), true), false),
+        (q(Ast::NonCap(Box::new(Ast::Alt(vec![grp(ch('a')), grp(ch('b'))]))), 1, None, true), false),
+        (Ast::Seq(vec![q(ch('a'), 1, Some(2), false), ch('b')]), false),
+        (Ast::Seq(vec![ch('K'), Ast::Class { inv: true, items: vec![Item::Ch('s' as u32)] }]), false),
+        (Ast::Seq(vec![Ast::WordB(false), Ast::Class { inv: false, items: vec![Item::Esc('w')] }]), false),
+        (Ast::Modifier { on: Fl { i: true, m: false, s: false }, off: Fl::default(), body: Box::new(Ast::Seq(vec![ch('a'), ch('B')])) }, false),
+        (Ast::Seq(vec![Ast::Bol, Ast::Any, Ast::Eol]), false),
+    ];
+    type Ctx = fn(Ast) -> Ast;
+    let contexts: Vec<Ctx> = vec![
+        |a| a,
+        |a| Ast::Seq(vec![Ast::Look { ahead: false, neg: false, body: Box::new(a) }, Ast::Char('x' as u32)]),
+        |a| Ast::Seq(vec![Ast::Look { ahead: false, neg: true, body: Box::new(a) }, Ast::Char('x' as u32)]),
+        |a| Ast::Seq(vec![Ast::Look { ahead: true, neg: false, body: Box::new(a) }, Ast::Any]),
+        |a| Ast::Seq(vec![Ast::Look { ahead: false, neg: false, body: Box::new(Ast::Look { ahead: true, neg: false, body: Box::new(a) }) }, Ast::Any]),
+        |a| Ast::Seq(vec![Ast::Look { ahead: true, neg: false, body: Box::new(Ast::Seq(vec![Ast::Any, Ast::Any, Ast::Look { ahead: false, neg: false, body: Box::new(a) }])) }, Ast::Any]),
+        |a| Ast::Quant { body: Box::new(Ast::NonCap(Box::new(a))), min: 0, max: None, greedy: false },
+        |a| Ast::Seq(vec![Ast::Group { name: None, body: Box::new(a) }, Ast::Any]),
+        |a| Ast::Seq(vec![Ast::Look { ahead: false, neg: false, body: Box::new(Ast::Seq(vec![Ast::Char('x' as u32), a])) }, Ast::Char('x' as u32)]),
+    ];
+    let mut out = vec![];
+    for (b, needs_v) in bodies.iter() {
+        for c in contexts.iter() {
+            for f in ["", "i", "u", "iu", "v", "iv", "m", "is"] {
+                if *needs_v && !f.contains('v') {
+                    continue;
+                }
+                out.push((c(b.clone()), f));
+            }
+        }
+    }
+    out
+}
+const FAMILY_HAYS: &[&str] = &["", "abx", "bax", "ABx", "abcx", "xab", "aab", "aa", "ba", "Ks", "kS", "\u{212A}s", "a\nb", "xabx", "b", "ab", "aB", "xx"];
+
 pub fn cmd_spec(args: &[String]) {
     let seed: u64 = args[0].parse().unwrap();
     let n: u64 = args[1].parse().unwrap();
@@ -530,15 +586,20 @@ pub fn cmd_spec(args: &[String]) {
     let stdout = std::io::stdout();
     let mut w = std::io::BufWriter::new(stdout.lock());
     let flagsets = ["", "", "i", "m", "s", "u", "iu", "ms", "v", "iv", "is", "imsu", "u", "iu"];
-    for id in 0..n {
-        let f = *r.pick(&flagsets);
+    let family: Vec<(Ast, &'static str)> = if seed % 1000 == 0 { spec_family() } else { vec![] };
+    let nfam = family.len() as u64;
+    for id in 0..(n + nfam) {
+        let is_family = id < nfam;
+        let (ast, f): (Ast, &str) = if is_family {
+            (family[id as usize].0.clone(), family[id as usize].1)
+        } else {
+            let f = *r.pick(&flagsets);
+            let depth = if r.chance(1, 5) { 3 } else { 1 + r.below(2) as u32 };
+            let mut g = G { r: &mut r, unicode: f.contains('u'), vmode: f.contains('v'), ngroups_seen: 0, names_seen: vec![] };
+            (g.alt(depth, false), f)
+        };
         let unicode = f.contains('u');
         let vmode = f.contains('v');
-        let depth = if r.chance(1, 5) { 3 } else { 1 + r.below(2) as u32 };
-        let ast = {
-            let mut g = G { r: &mut r, unicode, vmode, ngroups_seen: 0, names_seen: vec![] };
-            g.alt(depth, false)
-        };
         let mut pat = String::new();
         print(&ast, &mut pat, vmode);
         let total = count_groups(&ast);
@@ -567,7 +628,32 @@ pub fn cmd_spec(args: &[String]) {
         }
         writeln!(w, "P {} {} {} {} {}", id, crate::api_cps_hex(&pat), if f.is_empty() { "-" } else { f }, total, (unicode || vmode) as u8).unwrap();
         writeln!(w, "A {}", toks).unwrap();
-        for _ in 0..nh {
+        let nhays = if is_family { FAMILY_HAYS.len() as u64 } else { nh };
+        for hi in 0..nhays {
+            if is_family {
+                let t = FAMILY_HAYS[hi as usize].to_string();
+                let mut starts: Vec<usize> = t.char_indices().map(|(i, _)| i).collect();
+                starts.push(t.len());
+                for s in starts {
+                    crate::verif::reset_steps(200000);
+                    let res = panic::catch_unwind(panic::AssertUnwindSafe(|| re.find_from(&t, s).next()));
+                    let steps = crate::verif::steps();
+                    crate::verif::reset_steps(u64::MAX);
+                    let mut line = format!("F {} {}", hex(t.as_bytes()), s);
+                    match res {
+                        Ok(Some(m)) => {
+                            write!(line, " M {} {} {}", m.start(), m.end(), m.captures.len()).unwrap();
+                            for c in &m.captures {
+                                match c { Some(r) => write!(line, " {} {}", r.start, r.end).unwrap(), None => line.push_str(" -") }
+                            }
+                        }
+                        Ok(None) => line.push_str(" N"),
+                        Err(_) => line.push_str(if steps > 200000 { " BUDGET" } else { " PANIC" }),
+                    }
+                    writeln!(w, "{}", line).unwrap();
+                }
+                continue;
+            }
             let lim = if r.chance(1, 4) { 12 } else { 6 };
             let len = r.below(lim);
             let mut t = String::new();
